@@ -51,11 +51,14 @@ def run_check(d, prop, extra=()):
 
 
 def main():
-    args = [a for a in sys.argv[1:] if not a.startswith("--")]
-    keep = "--keep" in sys.argv
+    argv = sys.argv[1:]
+    keep = "--keep" in argv
     out = None
-    if "--out" in sys.argv:
-        out = sys.argv[sys.argv.index("--out") + 1]
+    if "--out" in argv:
+        i = argv.index("--out")
+        out = argv[i + 1]
+        del argv[i : i + 2]
+    args = [a for a in argv if not a.startswith("--")]
     cases = []
     for n, m in MUTANTS.items():
         cases.append((n, m["prop"], m["what"], ("edits", m["edits"])))
